@@ -33,7 +33,7 @@ MODS = [
     ("with_host", "new.example"), ("with_host", "NEW.Example"), ("with_host", "пример.рф"), ("with_host", "10.0.0.1"), ("with_host", "::2"), ("with_host", "FE80::2%eth1"),
     ("with_port", None), ("with_port", 0), ("with_port", 80), ("with_port", 443), ("with_port", 9999),
     ("with_fragment", "new"), ("with_fragment", "n w#?é"), ("with_fragment", ""), ("with_fragment", None),
-    ("with_query", {"a": "1"}), ("with_query", None), ("update_query", {"z": "9"}), ("extend_query", "e=1"), ("without_query_params", "k"),
+    ("with_query", {"a": "1"}), ("with_query", None), ("update_query", {"z": "9"}), ("extend_query", "e=1"), ("extend_query", {"f": 1e+20, "g": -3, "h": 2.5e-7}), ("with_query", {"f": 1e+16, "s p": "a+b&c"}), ("without_query_params", "k"),
     ("with_path", "/new p", {}), ("with_path", "/new", {"keep_query": True}), ("with_path", "/new", {"keep_fragment": True}), ("with_path", "", {"keep_query": True, "keep_fragment": True}),
     ("with_path", "/new%20p", {"encoded": True, "keep_query": True, "keep_fragment": True}), ("with_path", "/new", {"encoded": True, "keep_query": True}),
     ("with_path", "/new", {"encoded": True, "keep_fragment": True}), ("with_path", "/new", {"encoded": True}),
@@ -146,9 +146,11 @@ def check_mod(ctx, backend, base, mod, enumerated=False):
         unchanged([k for k in FIELDS if k != "raw_query_string"], "a query operation changed another component")
         old = list(B.query.items())
         if name == "with_query":
-            want = [] if a[0] is None else list(a[0].items())
+            want = [] if a[0] is None else [(k, v if isinstance(v, str) else str(v)) for k, v in a[0].items()]
         elif name == "update_query":
             want = [p for p in old if p[0] != "z"] + [("z", "9")]
+        elif name == "extend_query" and isinstance(a[0], dict):
+            want = old + [(k, str(v)) for k, v in a[0].items()]
         elif name == "extend_query":
             want = old + [("e", "1")]
         else:
